@@ -359,6 +359,15 @@ def run(ctx):
     except ldr_translate.Untranslatable as e:
         ctx.obligations += 2
         ctx.broken.append(f"translator gen/ldr_translate.py: split_template_path left the translatable vocabulary: {e}")
+    # translator tie for FileSystemLoader.get_source, ChoiceLoader.get_source / load, PrefixLoader.get_loader / get_source / load
+    import ldc_translate
+    try:
+        ok, out = ctx.coq_obligation("Gen_ldc", ldc_translate.emit(lib.SRC), n_obligations=7)
+        if ok:
+            ctx.trusted.append("Gen_ldc (FileSystemLoader / ChoiceLoader / PrefixLoader source = model): " + " ".join(out.split()))
+    except ldc_translate.Untranslatable as e:
+        ctx.obligations += 7
+        ctx.broken.append(f"translator gen/ldc_translate.py: loaders.py left the translatable vocabulary: {e}")
     if not _HOOKED[0]:
         sys.addaudithook(_audit)
         _HOOKED[0] = True
